@@ -24,6 +24,7 @@ pub fn triple(v: &Value) -> Triple {
 /// register under `reg`, server start under `srv`, client finish under `cli`.
 /// Returns Ok(true) login succeeded, Ok(false) client rejected, Err(step) a step refused its input.
 pub fn flow(suite: &dyn Suite, seed: u64, n: i64, reg: &Triple, srv: &Triple, cli: &Triple) -> Result<bool, String> {
+    let _running = crate::watch::enter();
     let r = std::panic::catch_unwind(std::panic::AssertUnwindSafe(|| -> Result<bool, String> {
         let pw = b"pw";
         let cid = b"cid";
